@@ -128,6 +128,11 @@ class Ctx:
         self.rules_run.append(rule_id)
         n_before = len(self.oks) + len(self.violations) + len(self.inconclusive)
         try:
+            if rule_id in TICK_RULES:
+                why = tick_arch_reason(self.facts)
+                if why:
+                    raise Inconclusive("the tick protocol has been re-architected (%s): this rule is written for `tick` calling `tick_inner(canceled: bool, ..)` twice with "
+                                       "`State::canceled()` / `State::cleared()` as the state tests, and does not decide the new shape" % why)
             fn(self, *args)
         except Inconclusive as e:
             self.fail_closed(str(e))
@@ -138,6 +143,46 @@ class Ctx:
         if n_after == n_before:
             self.fail_closed("rule produced no obligations (vacuous)")
         self.cur = None
+
+
+# Rules about the tick / tick_inner / worker hand-over protocol.  They follow the two-phase structure of the code as it
+# is (tick -> tick_inner(true, ..) / tick_inner(false, ..), guarded by State::canceled()/cleared()); helper extraction,
+# renames, reordering and local rewrites are normalised away, but when that structure itself is gone (phases merged
+# into one function, the bool parameter replaced by a request struct, the State tests merged) the rules say so
+# instead of reporting shape differences as violations.
+TICK_RULES = {
+    "C06.update-guard", "C12.stale-guard", "C12.stream-switch", "C13.arm-under-lock", "C13.disarm-first", "C13.cancel-writers",
+    "C19.cancel-writers", "C19.update-guard", "C19.changed-guards-mutation", "C19.running-guards-spawn", "C19.running-formula",
+    "C19.status-lattice", "C19.pattern-handover", "C20.refs-table", "C20.transitions", "C20.holders",
+}
+_TICK_ARCH = {}
+
+
+def tick_arch_reason(facts):
+    k = id(facts)
+    if k in _TICK_ARCH:
+        return _TICK_ARCH[k]
+    why = None
+    tick = facts.body("nucleo", "Nucleo::<T>::tick")
+    ti = facts.body("nucleo", "Nucleo::<T>::tick_inner")
+    if tick is None:
+        why = "Nucleo::tick not found"
+    elif ti is None:
+        why = "Nucleo::tick_inner no longer exists"
+    else:
+        nbool = sum(1 for l in range(1, ti.get("arg_count", 0) + 1) if ti["locals"][l]["ty"] == "bool")
+        if nbool != 1:
+            why = "tick_inner has %d bool parameters instead of the `canceled` flag" % nbool
+        else:
+            calls = [blk["term"] for blk in tick["blocks"] if blk["term"]["k"] == "call" and (blk["term"].get("resolved") or blk["term"].get("fn")) == "Nucleo::<T>::tick_inner"]
+            if not calls:
+                why = "tick does not call tick_inner"
+    if why is None:
+        for m in ("State::canceled", "State::cleared"):
+            if facts.body("nucleo", m) is None:
+                why = "%s no longer exists" % m
+    _TICK_ARCH[k] = why
+    return why
 
 
 def load_known():
